@@ -1,6 +1,7 @@
 import Ldlm.Proofs.Table
 import Ldlm.Proofs.CoreDead
 import Ldlm.Proofs.Threads
+import Ldlm.Proofs.CoreSize
 /-!
 C02 — Lock/TryLock/Unlock are linearizable to a counting lock with keys.
 
@@ -157,6 +158,43 @@ def su : Core.Str := [115, 49]
 example : (Core.step flatOps cfgU (Core.run flatOps cfgU [.connect su, .tryLock (some su) [97] none none]) (.unlock (some su) [97] (cfgU.genKey 0))).2.ok = true := by decide
 example : (Core.step flatOps cfgU (Core.run flatOps cfgU [.connect su, .tryLock (some su) [97] none none, .unlock (some su) [97] (cfgU.genKey 0),
     .tryLock (some su) [97] none none, .restart]) (.unlock (some su) [97] (cfgU.genKey 0))).2.ok = false := by decide
+
+/-! ### the sequential model answers as the atomic counting lock does
+M2 is what the seq stream compares the real server with, operation by operation; M1 / M1t show that
+every concurrent schedule of the table linearizes to the atomic counting lock `astep`.  These two
+lemmas close the triangle: on every record that satisfies M2's invariant (`RecInv`, proved for every
+reachable state) M2's TryLock and Unlock decide exactly as `astep` does. -/
+open Ldlm.Table in
+theorem seq_trylock_atomic (ho : o.Lawful) (s : Core.St M) (h : RecInv o s) (sid : Sid) (n : Core.Str) (sz lt : Option Int)
+    (r : LockRec) (hg : o.get s.locks n = some r) (hn : n ≠ []) (hlt : negOpt lt = false) (hsz : sz.getD 1 = r.size) :
+    (Core.step o c s (.tryLock (some sid) n sz lt)).2.ok =
+      (astep r.size.toNat r.keys (.try n (c.genKey s.nreq) true)).isSome := by
+  have hpos := h.2 n r hg
+  have hok := h.1 n r hg
+  simp only [Core.step, srvTryLock, hlt, hn, hsz, getLockCreate, hg]
+  have h1 : ¬ r.size ≤ 0 := by omega
+  simp only [h1, if_false, ne_eq, not_true_eq_false, Bool.false_eq_true, if_false]
+  simp only [astep]
+  by_cases hc : (r.keys.length : Int) < r.size
+  · have hq : r.q = [] := by
+      by_cases e : r.q = []
+      · exact e
+      · have := hok.2 e; omega
+    have : r.keys.length < r.size.toNat := by omega
+    simp [hc, hq, this]
+  · have : ¬ r.keys.length < r.size.toNat := by omega
+    simp [hc, this]
+
+/-- every state the sequential model reaches satisfies the hypothesis of `seq_trylock_atomic` -/
+theorem seq_reachable_recInv (ho : o.Lawful) (ops : List Op) : RecInv o (Core.run o c ops) :=
+  (recInv_blocks (c := c) ho).run (fun s h => recInv_restart ho s h) (recInv_init ho) ops
+
+open Ldlm.Table in
+theorem seq_unlock_atomic (s : Core.St M) (sid : Option Sid) (n k : Core.Str) (r : LockRec)
+    (hg : o.get s.locks n = some r) :
+    (Core.step o c s (.unlock sid n k)).2.ok = (astep r.size.toNat r.keys (.unlock n k true)).isSome := by
+  simp only [Core.step, srvUnlock, mgrUnlock, hg, astep]
+  by_cases hk : k ∈ r.keys <;> simp [hk]
 end
 
 end Ldlm.Props.C02
